@@ -78,6 +78,9 @@ def run(ctx):
                 if op == "fitGuards":
                     # relational: the model's guards true => the real replace_step neither raised nor hung
                     rangeplan.check_fit_guards(ctx, replay, out)
+                if op == "fitRaise":
+                    # relational: hypotheses of fit_no_raise / fit_no_raise_while true => the real replace_step returned
+                    rangeplan.check_fit_raise(ctx, replay, out)
                 if op == "fitEmit":
                     # relational: start half always, StepWF under the hypotheses of the theorems, payload of the real step valid
                     rangeplan.check_fit_emit(ctx, replay, out)
@@ -90,6 +93,7 @@ def run(ctx):
     rangeplan.tie_divergence_example(ctx, reqs, metas)
     fam = schemas.family()
     rng_rr = random.Random(ctx.seed * 7919 + 11)     # the replace_range ties draw from their own stream
+    rng_fr = random.Random(ctx.seed * 6151 + 5)      # … and the fit_no_raise tie on random schemas
     # replace_range on the aimed schemas with `definingAsContext` / `definingForContent` (harness/schemas.py), and
     # replace_range_with at block boundaries (where insert_point moves the target)
     for info in [schemas.by_name("ctx-flags-a"), schemas.by_name("ctx-flags-b")] + [fam[k] for k in (1, 5, 6)]:
@@ -159,11 +163,19 @@ def run(ctx):
                     rst = rangeplan.tie_replace_step(ctx, info, d, f, t, req, reqs, metas)
                     # the guards of the totality theorems (Props/C11.lean), exactly, and: guard true => it did not raise
                     rangeplan.tie_fit_guards(ctx, info, d, f, t, req, rst, reqs, metas)
+                    # the guards of fit_no_raise (lean/PM/FitRaiseGuard.lean), exactly, and: hypotheses true => it returned
+                    rangeplan.tie_fit_raise(ctx, info, d, f, t, req, rst, reqs, metas)
                     # well-formedness of the emitted step (StepWF / aroundShape), exactly, and the payload of the real step
                     rangeplan.tie_fit_emit(ctx, info, val, d, f, t, req, reqs, metas)
                     if name in ("delete_range", "delete"):
                         # delete_range as a whole (widening + Fitter): the recorded step, exactly
                         rangeplan.tie_delete_range_step(ctx, info, d, f, t, reqs, metas)
+                if not bundled and rng_fr.random() < 0.5:
+                    # random schemas: the guards of fit_no_raise (exact) and "hypotheses true => replace_step returned"
+                    # (relational), on a private random stream; here the stale `open_start` of `place_nodes` does occur
+                    rst_ = outcome(lambda: rangeplan.replace_step(d, f, t, req))[0]
+                    rangeplan.tie_fit_raise(ctx, info, d, f, t, req, rst_, reqs, metas)
+                    ctx.count("fit raise: random-schema requests")
                 tr = Transform(d)
                 st, val_, added = ops.run_op(tr, thunk)
                 replay = {"schema": info.name, "doc": d.to_json(), **ops.describe(name, args)}
